@@ -47,11 +47,11 @@ def sem(spec, env, vals):
         return _I(z3.If(zt(s) == 1, tot >= v, -tot >= v))
     if t == "AtMost":
         return _I(_sum(ch) <= zt(P(env, spec["value"])))
-    if t == "All":
+    if t in ("All", "SC"):
         return _I(z3.And([c >= 1 for c in ch])) if ch else z3.IntVal(1)
-    if t == "Any":
+    if t in ("Any", "cAny"):
         return _I(z3.Or([c >= 1 for c in ch]))
-    if t in ("Xor", "ExactlyOne"):
+    if t in ("Xor", "ExactlyOne", "cXor"):
         return _I(_sum(ch) == 1)
     if t == "XNor":
         return _I(_sum(ch) != 1)
